@@ -5,17 +5,19 @@
 #include "verif_hooks.hpp"
 using namespace vh;
 
-static void setup(ECPIntegrator& I, const Case& c) {
+// stretch != 1: the integrator is set up and initialised with every coordinate multiplied by `stretch` (same atom partition), and moved to
+// the case's geometry with the two update routines before anything is computed: whatever init() derives from the geometry is then stale
+static void setup(ECPIntegrator& I, const Case& c, double stretch = 1.0) {
   std::vector<double> coords, exps, coefs; std::vector<int> ams, lens;
   for (auto& s : c.shells) {
-    coords.insert(coords.end(), s.c.begin(), s.c.end());
+    for (double x : s.c) coords.push_back(x * stretch);
     ams.push_back(s.l); lens.push_back((int)s.e.size());
     exps.insert(exps.end(), s.e.begin(), s.e.end()); coefs.insert(coefs.end(), s.d.begin(), s.d.end());
   }
   I.set_gaussian_basis((int)c.shells.size(), coords.data(), exps.data(), coefs.data(), ams.data(), lens.data());
   std::vector<double> ec, ee, ed; std::vector<int> el, en, elen;
   for (auto& u : c.ecps) {
-    ec.insert(ec.end(), u.c.begin(), u.c.end()); elen.push_back((int)u.p.size());
+    for (double x : u.c) ec.push_back(x * stretch); elen.push_back((int)u.p.size());
     for (auto& p : u.p) { ee.push_back(p.a); ed.push_back(p.d); el.push_back(p.l); en.push_back(p.n); }
   }
   I.set_ecp_basis((int)c.ecps.size(), ec.data(), ee.data(), ed.data(), el.data(), en.data(), elen.data());
@@ -29,7 +31,15 @@ int main(int argc, char** argv) {
     int order = (int)c.geti("order", 0);
     verif::ctl() = verif::Ctl();
     verif::ctl().no_screen = c.geti("noscreen", 0) == 1; verif::ctl().no_screen_api = c.geti("noscreen", 0) == 2;
-    ECPIntegrator I; setup(I, c); I.init(order);
+    double stretch = c.getd("init_stretch", 1.0);
+    ECPIntegrator I; setup(I, c, stretch); I.init(order);
+    if (stretch != 1.0) {
+      std::vector<double> sc0, ec0;
+      for (auto& s : c.shells) sc0.insert(sc0.end(), s.c.begin(), s.c.end());
+      for (auto& u : c.ecps) ec0.insert(ec0.end(), u.c.begin(), u.c.end());
+      I.update_gaussian_basis_coords((int)c.shells.size(), sc0.data());
+      I.update_ecp_basis_coords((int)c.ecps.size(), ec0.data());
+    }
     I.compute_integrals();
     if (order > 0) I.compute_first_derivs();
     if (order > 1) I.compute_second_derivs();
